@@ -44,6 +44,8 @@ SENS = [
     ("MC_WsEndpoint_dev_CloseNoReply.cfg", "CloseNoReply", "invariant", "Inv_Close"),
     ("MC_WsEndpoint_dev_DropCloseTwice.cfg", "DropCloseTwice", "invariant", "Inv_Close"),
     ("MC_WsEndpoint_dev_NoneWhilePartial.cfg", "NoneWhilePartial", "action_property", "NoneOnlyWhenNothing"),
+    ("MC_WsEndpoint_dev_LenForm126.cfg", "LenForm126", "invariant", "Inv_WellFormedOut"),
+    ("MC_WsEndpoint_dev_LenForm65536.cfg", "LenForm65536", "invariant", "Inv_WellFormedOut"),
     ("MC_WsEndpoint_dev_NonblockingLeftOn.cfg", "NonblockingLeftOn", "invariant", "Inv_SockRestored"),
     ("MC_WsEndpoint_dev_NonblockingLeftOn_send.cfg", "NonblockingLeftOn", "invariant", "Inv_WellFormedOut"),
     ("MC_WsEndpoint_dev_NonblockingLeftOn_recv.cfg", "NonblockingLeftOn", "action_property", "ErrorOnlyAtEof"),
@@ -55,7 +57,7 @@ RANDOM_BASE = 10_000_000
 
 def case_key(c):
     fr = [[f["op"], f["fin"], f["pay"], sorted(f["cuts"])] for f in c["frames"]]
-    return json.dumps([c["key"], c["mode"], c["echo"], c.get("pre", "none"), c.get("push", []), fr, c["sent"], c["end"]],
+    return json.dumps([c["key"], c.get("hsv", "canon"), c["mode"], c["echo"], c.get("pre", "none"), c.get("push", []), fr, c["sent"], c["end"]],
                       sort_keys=True)
 
 
@@ -70,7 +72,7 @@ def nontrivial(c):
 
 def brief(c):
     return {"key": c["key"], "mode": c["mode"], "echo": c["echo"], "end": c["end"], "sent": c["sent"],
-            "pre": c.get("pre", "none"), "push_len": sum(r["n"] for r in c.get("push", [])),
+            "hsv": c.get("hsv", "canon"), "pre": c.get("pre", "none"), "push_len": sum(r["n"] for r in c.get("push", [])),
             "frames": [{"op": f["op"], "fin": f["fin"], "len": sum(r["n"] for r in f["pay"]), "cuts": sorted(f["cuts"])[:8]}
                        for f in c["frames"]]}
 
@@ -261,12 +263,23 @@ def run(tier, replay):
     cases = {}
     side["mixed"] = pool.submit(run_tlc, "MC_WsEndpoint.tla", "MC_WsEndpoint_mixed_%s.cfg" % tier, D, workers=2, coverage=True,
                                 timeout=1800, heap="4g", work_id="c11-mixed")
+    side["bound"] = pool.submit(run_tlc, "MC_WsEndpoint.tla", "MC_WsEndpoint_bound_%s.cfg" % tier, D, workers=2 if not thorough else 6,
+                                timeout=3000, heap="6g", work_id="c11-bound")
+    side["burst"] = pool.submit(run_tlc, "MC_WsEndpoint.tla", "MC_WsEndpoint_burst.cfg", D, workers=2, timeout=900, heap="2g",
+                                work_id="c11-burst")
     for label, cfg, cover in (("exhaustive check + behaviours", "MC_WsEndpoint_%s.cfg" % tier, True),
-                              ("all split classes and keys + behaviours", "Gen_WsEndpoint_%s.cfg" % tier, False),
+                              ("all split classes, 147 keys (every length 0..130), 7 request spellings + behaviours",
+                               "Gen_WsEndpoint_%s.cfg" % tier, False),
                               ("handlers mixing the calls: empty poll, push of 3 B / 6 MiB, then the mode + behaviours",
-                               "MC_WsEndpoint_mixed_%s.cfg" % tier, None)):
+                               "MC_WsEndpoint_mixed_%s.cfg" % tier, None),
+                              ("echo at the encoder's length boundaries (0..2^20, fragment sums), Close bodies + behaviours",
+                               "MC_WsEndpoint_bound_%s.cfg" % tier, "bound"),
+                              ("bursts of 2 MiB echoes to a late reader + behaviours", "MC_WsEndpoint_burst.cfg", "burst")):
         if cover is None:
             r = side["mixed"].result()
+        elif cover in ("bound", "burst"):
+            r = side[cover].result()
+            cover = False
         else:
             r = run_tlc("MC_WsEndpoint.tla", cfg, D, workers=8, coverage=cover, timeout=3300, heap="12g", work_id="c11-mc")
         ctx.add_tlc("%s (%s, Dev={})" % (label, cfg), r)
@@ -283,8 +296,11 @@ def run(tier, replay):
         for c in r.prints:
             k = case_key(c)
             if k in cases:
-                if cases[k]["exp"] != c["exp"]:
-                    raise vlib.ToolError("the spec predicts two different outcomes for one script: %s" % k[:400])
+                if cases[k]["exp"] != c["exp"] and c["exp"] not in cases[k].get("exp_alt", []):
+                    # one script, two outcomes: only where the spec leaves the outcome open (request spelled in another case)
+                    if c["hsv"] == "canon":
+                        raise vlib.ToolError("the spec predicts two different outcomes for one script: %s" % k[:400])
+                    cases[k].setdefault("exp_alt", []).append(c["exp"])
                 continue
             cases[k] = c
     for cfg, dev, kind, name in SENS:
@@ -304,18 +320,30 @@ def run(tier, replay):
     for i, k in enumerate(order):
         c = cases[k]
         c["c"] = i + 1
-        c["gap"] = 300 if not thorough else rnd.choice([0, 300, 1200])
+        c["gap"] = rnd.choice([0, 300]) if not thorough else rnd.choice([0, 300, 1200])
+        # a client that starts reading late whenever the server has several MiB to write (the writes must still complete)
+        if sum(f["len"] for f in c["exp"]["out"]) >= (4 << 20):
+            c["late"] = 300
         clist.append(c)
     step = 8
     res = run_harness(ws, ["replay", "32", str(step), str(ctx.seed % step)], clist)
     if len(res) != len(clist):
         raise vlib.ToolError("harness ran %d of %d behaviours" % (len(res), len(clist)))
+    skipped = [r for r in res if r.get("skipped")]
+    res = [r for r in res if not r.get("skipped")]
     by_c = {r["c"]: r for r in res}
     bad = [r for r in res if r["mismatch"]]
+    if skipped and not bad:
+        raise vlib.ToolError("harness skipped %d behaviours without reporting a hang" % len(skipped))
     ctx.cov["evaluations"] += len(res)
     nt = sum(1 for c in clist if nontrivial(c))
     ctx.add_part("behaviour replay", behaviours=len(clist), nontrivial=nt, mismatches=len(bad),
                  nonblocking=sum(1 for c in clist if c["mode"] == "nonblocking"),
+                 skipped_after_repeated_hangs=len(skipped),
+                 request_spelling_variants=sum(1 for c in clist if c["hsv"] != "canon"),
+                 distinct_keys=len(set(c["key"] for c in clist)),
+                 echoed_frame_lengths=sorted(set(f["len"] for c in clist if c["echo"] for f in c["exp"]["out"] if f["op"] in ("text", "binary")))[:40],
+                 late_reader_connections=sum(1 for c in clist if c.get("late")),
                  mixed_poll_then_receive=sum(1 for c in clist if c.get("pre") == "poll"),
                  mixed_poll_then_push=sum(1 for c in clist if c.get("pre") == "pollpush"),
                  mixed_poll_then_push_6MiB_to_slow_reader=sum(1 for c in clist if c.get("pre") == "pollpush" and sum(x["n"] for x in c["push"]) > (1 << 20)),
@@ -335,6 +363,8 @@ def run(tier, replay):
     rres = run_harness(ws, ["random", str(n), "12", str(70 * 1024), "16"])
     if len(rres) != n:
         raise vlib.ToolError("harness ran %d of %d random connections" % (len(rres), n))
+    rres = [r for r in rres if not r.get("skipped")]      # after repeated hangs the rest is skipped; the hangs are rejected below
+    n = len(rres)
     ctx.cov["evaluations"] += n
     rcases = {}
     for r in rres:
@@ -359,7 +389,7 @@ def run(tier, replay):
 
     # ---- 3b. the accept values, recomputed by TLC from the RFC definitions of SHA-1 and Base64
     alines, arej = validate_accepts(ctx, "Sec-WebSocket-Accept recomputed by TLC (Sha1, Base64) for %d distinct keys",
-                                    [r for r in res if not r["mismatch"]] + rres, 400 if thorough else 48)
+                                    [r for r in res if not r["mismatch"]] + rres, 500 if thorough else 200)
     ctx.add_part("handshake accept values", keys=len(alines), longest_key=max(len(l["kb"]) for l in alines),
                  empty_key=any(not l["kb"] for l in alines), disagree=len(arej))
     for x in arej[:5]:
